@@ -88,7 +88,7 @@ C13Dev(x) ==
   ELSE IF x.class = "const literal not assignable to its type" /\ "skipcheck:const_range" \in Devs
           /\ x.site \in {"uint8 = 256", "uint32 = -1", "int16 = 40000"} THEN "skipcheck:const_range"
   ELSE IF x.class = "duplicate definition name" /\ "skipcheck:union_inner_duplicate" \in Devs
-          /\ x.site \in {"union branch/top level", "union branch/union branch"} THEN "skipcheck:union_inner_duplicate"
+          /\ (x.where = "branch" \/ x.site \in {"union branch/top level", "union branch/union branch"}) THEN "skipcheck:union_inner_duplicate"
   ELSE IF x.class = "definition named like a primitive" /\ "skipcheck:union_inner_duplicate" \in Devs
           /\ x.site = "union branch" THEN "skipcheck:union_inner_duplicate"
   ELSE IF x.class = "duplicate field name" /\ "skipcheck:union_branch_field_names" \in Devs
